@@ -9,6 +9,8 @@ import Pymc.Model.ServerSpec
 import Pymc.Model.Client
 import Pymc.Model.ApiSpec
 import Pymc.Model.Conn
+import Pymc.Model.Failover
+import Pymc.Model.PoolConc
 /-! Line-protocol driver of the Lean models (one request per line, one reply line per request).
     Rejects what it cannot parse (`bad-op`), never defaults. -/
 open Bytes
@@ -387,6 +389,88 @@ def handleConn (ws : List String) : Option String := do
   let sock := match st'.sock with | some s => toString s | none => "none"
   pure s!"ok res={res} sock={sock} next={st'.next} leaked={(Conn.leaked log st'.sock).length} log={",".intercalate (log.map showConnEv)}"
 
+/-! ### C13: `failover cfg=<ra>,<rt>,<dt>,<0|1> n=<servers> t0=<t> ev=<now>/<oserr>/<other>/<c|g|s>/<keys> …` -/
+def handleFailover (ws : List String) : Option String := do
+  let c ← natList (← arg ws "cfg")
+  let cfg : Failover.Cfg ← match c with
+    | [ra, rt, dt, ign] => some ⟨ra, rt, dt, ign = 1⟩
+    | _ => none
+  let n ← (← arg ws "n").toNat?
+  let t0 ← (← arg ws "t0").toNat?
+  let evs := (ws.filter (·.startsWith "ev=")).map fun w => (w.drop 3).toString
+  let ls ← Failover.runTraceText cfg n t0 evs
+  pure ("ok " ++ " || ".intercalate ls)
+
+/-! ### C08: `pool max=<n> progs=<useOk,quitOk;clear> sched=<t:label,…>` -/
+def handlePool (ws : List String) : Option String := do
+  let mx ← (← arg ws "max").toNat?
+  let progs ← PoolConc.parsePrograms (← arg ws "progs")
+  let sc ← arg ws "sched"
+  let sched ← PoolConc.parseSchedule (if sc = "-" then [] else sc.splitOn ",")
+  pure ("ok " ++ " | ".intercalate (PoolConc.runSchedule mx progs sched))
+
+/-- run whole Ops of the listed threads one after the other; the idle test takes its answers from `idle` -/
+partial def poolRunOp (s : PoolConc.State) (t : Nat) (idle : List PoolConc.Label) (first : Bool) (acc : List String) :
+    PoolConc.State × List PoolConc.Label × List String :=
+  if !first && (s.th t).pc == .idle then (s, idle, acc) else
+  match PoolConc.stepE s t .tau with
+  | some (s', evs) => poolRunOp s' t idle false (acc ++ evs.map PoolConc.Event.render)
+  | none =>
+    match idle with
+    | l :: rest =>
+      (match PoolConc.stepE s t l with
+       | some (s', evs) => poolRunOp s' t rest false (acc ++ evs.map PoolConc.Event.render)
+       | none => (s, idle, acc ++ [s!"stuck {t}"]))
+    | [] => (s, idle, acc ++ [s!"stuck {t}"])
+
+/-- `pool.seq max=<n> progs=… order=<t,t,…> idle=<e|f,…>` -/
+def handlePoolSeq (ws : List String) : Option String := do
+  let mx ← (← arg ws "max").toNat?
+  let progs ← PoolConc.parsePrograms (← arg ws "progs")
+  let order ← natList (← arg ws "order")
+  let idl ← arg ws "idle"
+  let parseLbl : String → Option PoolConc.Label := fun x =>
+    if x = "e" then some .expired else (if x = "f" then some .fresh else none)
+  let idle ← (if idl = "-" then some [] else (idl.splitOn ",").mapM parseLbl)
+  let (_, _, out) := order.foldl (fun (acc : PoolConc.State × List PoolConc.Label × List String) t =>
+    let (s, i, o) := acc
+    if (s.th t).done then (s, i, o ++ [s!"done {t}"]) else
+    let (s', i', o') := poolRunOp s t i true []
+    (s', i', o ++ o')) (PoolConc.init progs mx, idle, [])
+  pure ("ok " ++ " | ".intercalate out)
+
+/-- validate an interleaved event trace of the real pool against the micro-step model:
+`pool.validate max=<n> progs=… trace=<tid>:<event_with_underscores>,…` -/
+def poolValidate (s : PoolConc.State) (owed : List (Nat × List String)) : List (Nat × String) → Nat → String
+  | [], n =>
+    if owed.all (·.2.isEmpty) then s!"ok valid steps={n}" else "ok INVALID end-of-trace with events owed by the model"
+  | (t, ev) :: rest, n =>
+    let q := ((owed.find? (·.1 = t)).map (·.2)).getD []
+    match q with
+    | e :: q' =>
+      if e = ev then poolValidate s ((t, q') :: owed.filter (·.1 ≠ t)) rest n
+      else s!"ok INVALID at {n}: thread {t} did `{ev}`, the model's current step owes `{e}`"
+    | [] =>
+      let tryL := fun (l : PoolConc.Label) =>
+        match PoolConc.stepE s t l with
+        | some (s', evs) =>
+          let rs := evs.map PoolConc.Event.render
+          if rs.head? = some ev then some (s', rs.drop 1) else none
+        | none => none
+      match (tryL .tau).orElse (fun _ => (tryL .fresh).orElse (fun _ => tryL .expired)) with
+      | some (s', more) => poolValidate s' ((t, more) :: owed.filter (·.1 ≠ t)) rest (n + 1)
+      | none => s!"ok INVALID at {n}: thread {t} did `{ev}`, which no enabled model step of that thread produces"
+
+def handlePoolValidate (ws : List String) : Option String := do
+  let mx ← (← arg ws "max").toNat?
+  let progs ← PoolConc.parsePrograms (← arg ws "progs")
+  let tr ← arg ws "trace"
+  let trace ← if tr = "-" then some [] else (tr.splitOn ",").mapM fun x =>
+    (match x.splitOn ":" with
+    | [t, e] => t.toNat?.map fun tn => (tn, e.replace "~" " ")
+    | _ => none)
+  pure (poolValidate (PoolConc.init progs mx) [] trace 0)
+
 def handle (ws : List String) : String :=
   let r : Option String :=
     match ws with
@@ -410,6 +494,10 @@ def handle (ws : List String) : String :=
     | "reader" :: rest => handleReader rest
     | "call" :: rest => handleCall rest
     | "conn" :: rest => handleConn rest
+    | "failover" :: rest => handleFailover rest
+    | "pool" :: rest => handlePool rest
+    | "pool.seq" :: rest => handlePoolSeq rest
+    | "pool.validate" :: rest => handlePoolValidate rest
     | _ => none
   r.getD "bad-op"
 
